@@ -69,12 +69,12 @@ PROPS["C08"] = {
     "assumptions": ["ranges lie inside the mdat payload (the property's 'valid' ranges)"],
 }
 
-_BOX_UNMODELLED = ["boxes without a layout term (skeleton-only): the containers that are not plain (stsd, dref, meta, ilst, tref, sample entries, wvtt cue boxes) and avcC/hvcC, esds descriptors, senc, sgpd, uuid, mdat, elng and `url ` (layout chosen by look-ahead on the payload), the tref child types (count = payload length / 4), colr/tfra/tlou/alou/dec3/silb/ssix (partly reserved bit fields or size-dependent acceptance), ilst/data (known finding), meta, trep, stpp/wvtt entries: covered by the direct oracle (four code paths, masks from the committed list) only",
+_BOX_UNMODELLED = ["boxes without a layout term (skeleton-only): the containers outside Model/Tree.lean (meta, ilst, tref, the audio sample entries - whose two decoders differ on inputs neither reproduces exactly, so one model function cannot answer for both -, stpp, evte, wvtt cue boxes) and avcC/hvcC, esds descriptors, senc, sgpd, uuid, mdat, elng and `url ` (layout chosen by look-ahead on the payload), the tref child types (count = payload length / 4), colr/tfra/tlou/alou/dec3/silb/ssix (partly reserved bit fields or size-dependent acceptance), ilst/data (known finding), meta, trep, stpp/wvtt entries: covered by the direct oracle (four code paths, masks from the committed list) only",
                    "Info text", "File-level top loops (direct oracle on whole files, both decoders, both encoders, both modes)"]
 PROPS["C01"] = {
     "level": "proof",
     "technique": "Lean 4 proof (generic layout DSL: encode∘decode = id outside computed don't-care positions, fixed point) + model-vs-code correspondence on every box + committed don't-care list",
-    "level_text": "Generic theorems over the layout DSL (lean/Mp4ff/Model/Layout.lean) hold for every layout and every byte string; the 64 hand-modelled box layouts (Model/Boxes.lean) are tied to the Go decoders/encoders by the box.rt correspondence (accept/reject, Size(), re-encoded bytes) on every box of the repository's media and their structured mutations; all registered types and whole files go through the direct oracle with the committed don't-care list. Nesting (Props/C01b.lean on Model/Tree.lean, the transcription of DecodeContainerChildren[SR] / EncodeContainer / the AddChild methods of the 15 plain containers incl. MoovBox.AddChild's trak placement, edts/traf acceptance, the child-size cross check): an accepted container re-encodes to exactly its input length (container_length), its header field equals the bytes written at every level (header_field), and the re-encoded tree equals the input outside the leaves' don't-care positions shifted to their place (lossless, no moov reordering on the way); fuel sufficiency (fuel_mono, roundTripTree_stable). Tie: op tree.rt on every plain container of the repository's media whose leaves are modelled and on trees composed from model-generated leaves (box.gen, Model/BoxGen.lean: boxes drawn from the layout terms themselves, so every flag / version / count shape the model allows reaches the four Go code paths).",
+    "level_text": "Generic theorems over the layout DSL (lean/Mp4ff/Model/Layout.lean) hold for every layout and every byte string; the 64 hand-modelled box layouts (Model/Boxes.lean) are tied to the Go decoders/encoders by the box.rt correspondence (accept/reject, Size(), re-encoded bytes) on every box of the repository's media and their structured mutations; all registered types and whole files go through the direct oracle with the committed don't-care list. Nesting (Props/C01b.lean on Model/Tree.lean, the transcription of DecodeContainerChildren[SR] / EncodeContainer / the AddChild methods of the 15 plain containers incl. MoovBox.AddChild's trak placement, edts/traf acceptance, the child-size cross check; and the containers with a fixed-syntax prefix: stsd and dref (full box + entry count that must equal the number of children) and the eight visual sample entries avc1 avc3 hvc1 hev1 encv av01 vp08 vp09 (78 bytes incl. the counted compressor name and its padding)): an accepted container re-encodes to exactly its input length (container_length), its header field equals the bytes written at every level (header_field), and the re-encoded tree equals the input outside the leaves' don't-care positions shifted to their place (lossless, no moov reordering on the way); fuel sufficiency (fuel_mono, roundTripTree_stable). Tie: op tree.rt on every plain container of the repository's media whose leaves are modelled and on trees composed from model-generated leaves (box.gen, Model/BoxGen.lean: boxes drawn from the layout terms themselves, so every flag / version / count shape the model allows reaches the four Go code paths).",
     "level_note": "Trusted: Lean kernel, allowed axioms, hand transcription of layouts validated by correspondence; unmodelled box types are covered by the direct oracle only (listed in the evidence).",
     "extra_props": ["C01b"],
     "trusted": ["Model/Layout.lean + Model/Boxes.lean: layout terms hand-transcribed from mp4/<box>.go for 64 box types, validated by the box.rt correspondence", "Model/Tree.lean: hand transcription of mp4/container.go and the plain containers' decoders / AddChild methods, validated by the tree.rt correspondence", "Model/BoxGen.lean (generator; no theorem depends on it: what it emits is filtered through the model's own roundTrip)", "spec/C01-dontcare.json (committed list), audited against the model and the code"],
